@@ -267,13 +267,16 @@ PROPS = {
     ),
     "C04": dict(
         level="model_checking",
-        level_text="TLC checks Inv_Index on every commit point of the writer model and T5 on the codec model; the real .shx bytes of "
+        level_text="UNBOUNDED: TLAPS proves (spec/proofs/WriterCounters, 71 obligations) that for any number of records of any size the index "
+                   "entries emitted from the running length are exactly the record table and the declared length is the real length; "
+                   "BOUNDED: TLC checks Inv_Index on every commit point of the writer model and T5 on the codec model; the real .shx bytes of "
                    "every recorded case and history are parsed by the TLA+ StrictShx and compared with the record table obtained by "
                    "walking the real .shp; on the reader side every recorded count / random access / iteration / size hint of the real "
                    "reader (n = 0, 1, 2, 4 records of varying sizes, in memory and by path) must be a step of the reader specification",
         level_note="trusted: TLC, instrumented destinations; bounded n and sampled size patterns",
         technique=TECH_TRACE,
         mc=[WRITER_MC, CODEC_MC, READER_MC],
+        proofs=["WriterCounters"],
         stages=[dict(cmd="codec", spec="Trace_Codec",
                      quick=dict(chunks=4, cases=8, large=1),
                      thorough=dict(chunks=12, cases=50, large=6, sweep=1)),
